@@ -191,6 +191,16 @@ type ReshareCfg struct {
 	NoProofMod bool
 	NoProofFac bool
 	Rand       func(i int) io.Reader
+	// OldEndUnbuffered: the old members' result channels have no buffer, so a retiring member's final call blocks
+	// on its report until the harness reads the channel (an application that collects results late)
+	OldEndUnbuffered bool
+}
+
+func oldEndCap(c ReshareCfg) int {
+	if c.OldEndUnbuffered {
+		return 0
+	}
+	return 8
 }
 
 // NewResharing builds old members (nodes 0..len(old)-1, sorted) followed by new members (sorted).
@@ -242,10 +252,10 @@ func NewResharing(c ReshareCfg) (n *Net, oldIDs, newIDs tss.SortedPartyIDs, oldK
 			}
 		}
 		if c.EdDSA {
-			nd.endEDKey = make(chan *edkeygen.LocalPartySaveData, 8)
+			nd.endEDKey = make(chan *edkeygen.LocalPartySaveData, oldEndCap(c))
 			nd.P = edresharing.NewLocalParty(params, c.OldED[ki], nd.out, nd.endEDKey)
 		} else {
-			nd.endECKey = make(chan *eckeygen.LocalPartySaveData, 8)
+			nd.endECKey = make(chan *eckeygen.LocalPartySaveData, oldEndCap(c))
 			nd.P = ecresharing.NewLocalParty(params, c.OldEC[ki], nd.out, nd.endECKey)
 		}
 		n.Nodes = append(n.Nodes, nd)
